@@ -9,14 +9,14 @@ V=/verif; W=/tmp/sm; rm -rf $W; mkdir -p $W
 git -C /repo worktree prune
 git -C /repo worktree add -q --detach $W/wt HEAD || exit 2
 seeds=("$@"); [ ${#seeds[@]} = 0 ] && seeds=($V/seeded/*/)
-props=${PROPS:-$($V/bin/rcheck -list)}
+props=${PROPS:-$(${RCHECK:-$V/bin/rcheck} -list)}
 for s in "${seeds[@]}"; do
   s=$(cd ${s%/} && pwd); name=$(basename $s)
   (cd $W/wt && git checkout -q -- . && git clean -fdq)
   if ! git -C $W/wt apply "$s/patch.diff" 2>/dev/null; then echo "$name: PATCH DOES NOT APPLY"; continue; fi
   rm -rf $W/out; mkdir -p $W/out
   for p in $props; do
-    ( mkdir -p $W/out/$p; cp $V/known_findings.json $W/out/$p/; $V/bin/rcheck -prop $p -repo $W/wt -out $W/out/$p > $W/out/$p.log 2>&1; echo $? > $W/out/$p.rc ) &
+    ( mkdir -p $W/out/$p; cp $V/known_findings.json $W/out/$p/; ${RCHECK:-$V/bin/rcheck} -prop $p -repo $W/wt -out $W/out/$p > $W/out/$p.log 2>&1; echo $? > $W/out/$p.rc ) &
     while [ $(jobs -r | wc -l) -ge 10 ]; do sleep 0.2; done
   done
   wait
